@@ -384,3 +384,11 @@ def run(ctx):
     for fn in fns_of(fb, "Graph", "reset"):
         calls = [pstr(ev.get("this")) + "." + ev.get("name", "") for _, ev in fn.all_events() if ev["e"] == "call" and ev.get("name") == "reset"]
         ctx.ob("C05.R6b", L.short(fn), len(calls) >= 2, fn.loc, "Graph::reset must reset every data and every vertex")
+
+
+SWEEP = ["anyflow/test_builder.cpp",
+         "anyflow/test_channel.cpp",
+         "anyflow/test_closure.cpp",
+         "anyflow/test_data.cpp",
+         "anyflow/test_dependency.cpp",
+         "anyflow/test_processor.cpp"]
